@@ -658,6 +658,7 @@ pub fn alphabet(root: &Level, style: AlphaStyle) -> Vec<Tok> {
     }
     let mut flag_shorts = vec![];
     let mut arg_shorts = vec![];
+    let mut alias_arg_shorts = vec![];
     root.walk(
         &mut |l, _| {
             for n in &l.named {
@@ -674,6 +675,11 @@ pub fn alphabet(root: &Level, style: AlphaStyle) -> Vec<Tok> {
                                 out.push(Tok::s(&format!("-{}=", s)));
                             }
                             arg_shorts.push(*s);
+                        } else if k == 1 {
+                            // the first (hidden) alias with its value attached, alone and behind a
+                            // flag in one item: the tokenizer must know aliases too
+                            out.push(Tok::s(&format!("-{}w", s)));
+                            alias_arg_shorts.push(*s);
                         }
                     } else if k == 0 {
                         flag_shorts.push(*s);
@@ -714,6 +720,9 @@ pub fn alphabet(root: &Level, style: AlphaStyle) -> Vec<Tok> {
             out.push(Tok::s(&format!("-{}{}", flag_shorts[0], flag_shorts[1])));
         }
         if let (Some(f), Some(a)) = (flag_shorts.first(), arg_shorts.first()) {
+            out.push(Tok::s(&format!("-{}{}v", f, a)));
+        }
+        if let (Some(f), Some(a)) = (flag_shorts.first(), alias_arg_shorts.first()) {
             out.push(Tok::s(&format!("-{}{}v", f, a)));
         }
     }
